@@ -182,6 +182,7 @@ def history_cases(draw, max_steps):
     scn["forcing"]["vel"]["kind"] = draw(st.sampled_from(["shear", "noise", "const"]))
     # some particles are released switched off: the release file has an 'active' column of 0 / 1
     scn["release"]["active_col"] = draw(st.sampled_from([0, 0, 0b0110, 0b1, 0b10101]))
+    scn["grid"]["metric"] = draw(st.sampled_from([None, "varying"]))  # cell sizes that differ between cells
     return scn
 
 
